@@ -108,6 +108,10 @@ func CustomCase(r *rand.Rand, name string, o CustomOpts) *Case {
 			}
 			if kind == "extendRegex" {
 				line = fmt.Sprintf("extend Hook%d.*", i)
+				if r.Intn(2) == 0 {
+					// alternatives: the whole name has to match ANY of them (the first one is a proper prefix)
+					line = fmt.Sprintf("extend Hook%d|Hook%dRx", i, i)
+				}
 			}
 			roles := []string{"source"}
 			switch kind {
